@@ -55,6 +55,34 @@ def exhaustive(res, tier, wd):
         sum(r["distinct"] for r in good), all(r.get("cached") for r in good)))
 
 
+def selftest(res, trace_file, wd):
+    ev = read_ndjson(trace_file)
+    def good(seg):
+        return seg[0].get("kind") in ("budp", "bunix") and sum(1 for e in seg if e["ev"] == "att" and e["ok"] and e["len"] > 2) >= 2 \
+            and any(e["ev"] == "stats" for e in seg) and all(e.get("ok", True) for e in seg if e["ev"] == "att")
+    run = first_run(ev, good)
+    if run is None:
+        raise ToolError("socket binding self-test: no suitable run")
+    def flip_byte(seg):
+        for e in seg:
+            if e["ev"] == "att" and e["ok"] and e["len"] > 2:
+                e["hex"] = ("7a" if e["hex"][:2] != "7a" else "79") + e["hex"][2:]
+                return seg
+        return None
+    def drop_datagram(seg):
+        i = next(i for i, e in enumerate(seg) if e["ev"] == "att" and e["ok"] and e["len"] > 2)
+        return seg[:i] + seg[i + 1:]
+    def wrong_stats(seg):
+        for e in reversed(seg):
+            if e["ev"] == "stats":
+                e["bs"] = e["bs"] + 1
+                return seg
+        return None
+    selftest_corruptions(res, "WriterTrace", run,
+                         [("one byte of a received datagram changed", flip_byte), ("a received datagram removed", drop_datagram),
+                          ("bytes_sent off by one", wrong_stats)], wd, "sock")
+
+
 def run(res, tier, seed, wd, replay=None):
     res.assumptions += [
         "loopback UDP / Unix datagram sockets deliver in order and do not drop (volumes are kept far below the socket buffers; a drainer thread empties them)",
@@ -105,4 +133,5 @@ def run(res, tier, seed, wd, replay=None):
     res.cov["rule"] = "evaluations = trace events (calls, datagrams received on real sockets, counters) judged by TLC; one trace = one sink from creation to drop; runs differ by sink kind / capacity / seed"
     res.add_tlc({"distinct": v["states"], "generated": v["states"]})
     res.sample({"kind": "trace excerpt (real sockets)", "events": read_ndjson(trD)[:10]})
+    selftest(res, trD, wd)
     log("[verdict] %d events of %d traces validated by TLC: %d flagged rules" % (nev, ntr, len(v["bad"])))
